@@ -91,9 +91,16 @@ FillK(name, b, k) == F(name, "fillk", <<b, k>>)
 LongDesc == <<115, 104, 111, 114, 116>> \o Concat([i \in 1..12 |-> <<10, 32>> \o [j \in 1..60 |-> 97 + ((i + j) % 26)]])       \* "short" + 12 lines of 60 letters
 FieldsLong(pkg) == [i \in 1..Len(Fields(pkg, FALSE)) |-> IF Fields(pkg, FALSE)[i][1] = bDesc THEN <<bDesc, LongDesc>> ELSE Fields(pkg, FALSE)[i]]
 Straddle == {Vec(<<Bin(V20), Ctl(c, <<Dir, FillK("./md5sums", 97, k), CtlF("./control")>>, FieldsLong(PkgA)), StdDat("gz")>>) : c \in {"gz", "", "xz"}, k \in 57..63}
-Near == {Vec(<<Bin(V20), StdCtl("gz"), StdDat("gz"), x>>) : x \in {[Ctl("gz", <<CtlF("./control")>>, Fields(PkgDecoy, FALSE)) EXCEPT !.role = "extra-ctl", !.name = "control_.tar.gz"],
-                                                                    [Dat("gz", <<DataFile(3)>>) EXCEPT !.role = "extra-dat", !.name = "data_.tar.gz"]}}
-C14Vecs == Near \cup Large \cup Straddle \cup Combos \cup Layouts \cup Versions \cup Missing \cup Orders \cup Ambiguous
+\* members whose names only begin like "control." / "data.": after the real ones and between debian-binary and them, with
+\* names that differ in the dot; loaded 24 times each (a loader that looks members up in a map sees them in varying order)
+NearNames == {<<"control_.tar.gz", "data_.tar.gz">>, <<"control-.tar.gz", "data-.tar.gz">>, <<"controlx.tar.gz", "datax.tar.gz">>}
+NearCtl(nm) == [Ctl("gz", <<CtlF("./control")>>, Fields(PkgDecoy, FALSE)) EXCEPT !.role = "extra-ctl", !.name = nm]
+NearDat(nm) == [Dat("gz", <<DataFile(3)>>) EXCEPT !.role = "extra-dat", !.name = nm]
+Near == {[Vec(ms) EXCEPT !.reps = 24] : ms \in UNION {{<<Bin(V20), StdCtl("gz"), StdDat("gz"), NearCtl(nn[1])>>, <<Bin(V20), StdCtl("gz"), StdDat("gz"), NearDat(nn[2])>>,
+                                                      <<Bin(V20), NearCtl(nn[1]), NearDat(nn[2]), StdCtl("gz"), StdDat("gz")>>} : nn \in NearNames}}
+\* the control file ends without a newline, is followed by blank lines, or begins with one: the same paragraph
+Endings == {Vec(<<Bin(V20), [StdCtl(c) EXCEPT !.text = st], StdDat("gz")>>) : c \in {"gz", ""}, st \in {<<110>>, <<98>>, <<108>>}}
+C14Vecs == Endings \cup Near \cup Large \cup Straddle \cup Combos \cup Layouts \cup Versions \cup Missing \cup Orders \cup Ambiguous
 
 \* ---- C16 ------------------------------------------------------------------
 Roles == {"origin", "maint", "archive"}
